@@ -10,13 +10,15 @@ Open Scope Z_scope.
 Open Scope string_scope.
 
 (* the instructions that push a COMPUTED string on the NAME stack (printed code,
-   printed graphs, concatenation): the only way a name that was nowhere in the
-   state can appear *)
+   printed graphs, concatenation, a random name, a key of the binding table): the
+   only way a name that was nowhere in the items / NAME stack can appear there *)
 Definition name_synth_names : list string :=
-  [ "NAME.CAT"; "CODE.PRINT"; "GRAPH.PRINT"; "GRAPH.PRINT*DIFF" ].
+  [ "NAME.CAT"; "CODE.PRINT"; "GRAPH.PRINT"; "GRAPH.PRINT*DIFF"; "NAME.RAND"; "NAME.RANDBOUNDNAME" ].
 Definition name_synth (n : string) : bool := existsb (String.eqb n) name_synth_names.
 
 Definition rearm_ok (qi : str -> bool) : Prop := Forall (fun n => qi (s2l n) = false) rearm_names.
+(* the selection must cover CODE.RAND: under the invariant it is then never executed *)
+Definition except_ok (qi : str -> bool) : Prop := Forall (fun n => qi (s2l n) = true) closure_exceptions.
 
 Section Inv.
   Variables qi qn : str -> bool.
